@@ -1064,6 +1064,29 @@ class Rewriter:
         if k_sf:
             code = re.sub(r'(?<![A-Za-z0-9_:])String::from\(', 'vx::string_from(', code)
             self.note('String::from(&str)->vx::string_from', k_sf)
+        # `let x: u32 = EXPR.parse()...;`  (target type given by the let annotation) -> EXPR.vx_parse_u32()
+        k_tp = 0
+        pos_tp = 0
+        while True:
+            m_tp = mask(code)
+            mm_tp = re.compile(r'(?<![A-Za-z0-9_])let\s+(?:mut\s+)?[a-z_][a-z0-9_]*\s*:\s*(u8|u16|u32|usize|i32)\s*=').search(m_tp, pos_tp)
+            if not mm_tp:
+                break
+            j, depth = mm_tp.end(), 0
+            while j < len(m_tp) and not (m_tp[j] == ';' and depth == 0):
+                if m_tp[j] in '([{':
+                    depth += 1
+                elif m_tp[j] in ')]}':
+                    depth -= 1
+                j += 1
+            seg = m_tp[mm_tp.end():j]
+            pm = re.search(r'\.\s*parse\s*\(\s*\)', seg)
+            if pm:
+                a, b = mm_tp.end() + pm.start(), mm_tp.end() + pm.end()
+                code = code[:a] + '.vx_parse_%s()' % mm_tp.group(1) + code[b:]
+                k_tp += 1
+            pos_tp = mm_tp.end()
+        self.note('let x: T = s.parse()->vx_parse_T', k_tp)
         code = self.method_to_fn(code, METHOD_RULES_PRE)
         if not opts.get('no_str_slice'):
             code = self.str_slices(code, skip_names=tuple(opts.get('noslice', ())))
